@@ -6,8 +6,10 @@
    (Dependency.get_value, Runner._get_task_args, Task._init_getargs, BaseAction._prepare_kwargs /
    CmdAction.expand_action, Task.update_deps, and [visit]: the runner's steps for one task as History
    operations), Model/Dispatch.v + Runner.v (dispatcher / serial runner, for the ordering part).
-   [current] / [icurrent] = the code in /repo (HEAD, after the two `fix:` commits cdbba24 and a0cd6c8 this
-   property led to); [ilegacy] = _get_task_args before them, kept for the `_legacy_refuted` statements.  [md5], [size_of], the set-iteration oracles are arbitrary. *)
+   [current] / [icurrent] = the code in /repo (HEAD, after the `fix:` commits cdbba24 and a0cd6c8 this
+   property led to, and the repair of the loop over file_dep in get_status, [fixC] of Model/Status.v);
+   [ilegacy] = _get_task_args before them, [before_fixC] = get_status before the third one, kept for the
+   `_legacy_refuted` statements.  [md5], [size_of], the set-iteration oracles are arbitrary. *)
 From DoitV Require Import Base Dispatch Runner DispatchP DispatchInv RunnerP.
 From DoitV Require Parallel ParallelP.
 From DoitV Require Import Status History StatusP HistoryP Inputs InputsP.
@@ -17,8 +19,10 @@ Open Scope Z_scope.
 (* after any FS-fresh history ([hist_ok]: no file ever carries one mtime with two contents; implied by
    [fs_fresh], Proofs/HistoryP.v fresh_hist_ok): if get_status answers `run` and no uptodate item is false, then
    dep_changed (= `changed`) holds every file dependency that has no saved state, every file
-   dependency of a task without a last successful execution, and every file dependency that the
-   last successful execution had and that is modified since by the configured checker's rule
+   dependency of a task without a last successful execution, every file dependency that the
+   last successful execution had and that is modified since by the configured checker's rule,
+   and (since the repair fixC) every file dependency that was NOT a dependency of the last successful
+   execution -- also one that an older execution had and left a state for
    (on each exit path: missing target / other checker -> all file deps; the file loop otherwise) *)
 Theorem C10_changed_superset : forall (md5 : N -> N) (size_of : N -> Z) (ops : list op) (t : name),
   hist_ok md5 size_of current ops = true ->
@@ -30,19 +34,85 @@ Theorem C10_changed_superset : forall (md5 : N -> N) (size_of : N -> Z) (ops : l
     (s_last_ok s t = None -> In f (g_changed (check md5 current s t))) /\
     (forall g then_ now, s_last_ok s t = Some g -> In f (file_dep (g_def g)) ->
        g_fs g f = Some then_ -> s_fs s f = Some now -> ~ unmodified md5 (s_ck s) then_ now ->
+       In f (g_changed (check md5 current s t))) /\
+    (forall g, s_last_ok s t = Some g -> ~ In f (file_dep (g_def g)) ->
        In f (g_changed (check md5 current s t))).
-Proof. intros md5 size_of ops t H. apply (changed_superset md5 size_of current); auto. Qed.
+Proof.
+  intros md5 size_of ops t H s Hrun Hi f Hf.
+  destruct (changed_superset md5 size_of current eq_refl ops t H Hrun Hi f Hf) as (A & B & C & D).
+  split; [exact A|]. split; [exact B|]. split; [exact C|]. exact (D eq_refl).
+Qed.
 Print Assumptions C10_changed_superset.
 
-(* the same for any DB content (no history needed): every file dep the loop would not find
-   unmodified is in dep_changed *)
+(* the same for any DB content (no history needed) and every code version: every file dep the loop
+   would not find unmodified ([dep_verdict]: the saved state against the file and, with fixC, the saved
+   'deps:' list) is in dep_changed ... *)
 Theorem C10_changed_superset_status : forall (md5 : N -> N) (v : ver) c fs d t df,
+  g_status (get_status md5 v c fs d t df false) = Run ->
+  (forall u, In u (uptodate df) -> eval_utd d t u <> Some false) ->
+  forall f, In f (file_dep df) -> dep_verdict md5 v c fs (getrec d t) f <> FSame ->
+            In f (g_changed (get_status md5 v c fs d t df false)).
+Proof. exact get_status_changed. Qed.
+Print Assumptions C10_changed_superset_status.
+(* ... spelled out: a dependency whose saved state does not match the file (none, or modified), in every
+   code version ... *)
+Theorem C10_changed_superset_state : forall (md5 : N -> N) (v : ver) c fs d t df,
   g_status (get_status md5 v c fs d t df false) = Run ->
   (forall u, In u (uptodate df) -> eval_utd d t u <> Some false) ->
   forall f, In f (file_dep df) -> file_verdict md5 c fs (getrec d t) f <> FSame ->
             In f (g_changed (get_status md5 v c fs d t df false)).
-Proof. exact get_status_changed. Qed.
-Print Assumptions C10_changed_superset_status.
+Proof. exact get_status_changed_state. Qed.
+Print Assumptions C10_changed_superset_state.
+(* ... and, in the repaired code, a dependency that is not in the saved 'deps:' list, whatever state
+   the record holds for it *)
+Theorem C10_changed_readded : forall (md5 : N -> N) (v : ver) c fs d t df,
+  fixC v = true ->
+  g_status (get_status md5 v c fs d t df false) = Run ->
+  (forall u, In u (uptodate df) -> eval_utd d t u <> Some false) ->
+  forall f p, In f (file_dep df) -> r_deps (getrec d t) = Some p -> ~ In f p ->
+              In f (g_changed (get_status md5 v c fs d t df false)).
+Proof. exact get_status_changed_outside. Qed.
+Print Assumptions C10_changed_readded.
+
+(* the code before the repair fixC: run 1 with file_dep [f0, f1], run 2 with [f0], then file_dep is
+   [f0, f1] again and f1 was never touched: the task executes (the dep set changed) with `changed` = []
+   although f1 was not a dependency of the last successful execution -- save_success never drops the
+   state of a file that left file_dep, and the loop only compared states.  The repaired code lists f1. *)
+Definition before_fixC : ver := {| fixA := true; fixB := true; fixC := false |}.
+Definition d01r : tdef := {| file_dep := [0; 1]%N; targets := []; uptodate := []; act_values := []; act_result := None |}.
+Definition d0r : tdef := {| file_dep := [0%N]; targets := []; uptodate := []; act_values := []; act_result := None |}.
+Definition readded_ops : list op := [Write 0 0; Write 1 1; SetDef 7 d01r; SaveOk 7; SetDef 7 d0r; SaveOk 7; SetDef 7 d01r]%N.
+Theorem C10_changed_readded_legacy_refuted :
+  exists (ops : list op) (t : name) (f : file) (g : snapshot),
+    fs_fresh ops = true /\ hist_ok (fun c => c) (fun _ => 4) before_fixC ops = true /\
+    let s := run (fun c => c) (fun _ => 4) before_fixC ops in
+    g_status (check (fun c => c) before_fixC s t) = Run /\ In f (file_dep (s_defs s t)) /\
+    s_last_ok s t = Some g /\ ~ In f (file_dep (g_def g)) /\
+    (forall u, In u (uptodate (s_defs s t)) -> eval_utd (s_db s) t u <> Some false) /\
+    g_changed (check (fun c => c) before_fixC s t) = [] /\
+    (* the repaired code on the same history *)
+    let s' := run (fun c => c) (fun _ => 4) current ops in
+    g_status (check (fun c => c) current s' t) = Run /\ g_changed (check (fun c => c) current s' t) = [f].
+Proof.
+  exists readded_ops, 7%N, 1%N.
+  eexists. split; [reflexivity|]. split; [vm_compute; reflexivity|]. cbv zeta.
+  split; [vm_compute; reflexivity|]. split; [vm_compute; auto|].
+  split; [vm_compute; reflexivity|]. split; [vm_compute; intros [H|[]]; discriminate|].
+  split; [intros u []|]. split; [vm_compute; reflexivity|]. split; vm_compute; reflexivity.
+Qed.
+Print Assumptions C10_changed_readded_legacy_refuted.
+(* non-vacuity of C10_changed_superset's last clause / C10_changed_readded on the repaired code *)
+Example C10_changed_readded_nonvacuous :
+  let s := run (fun c => c) (fun _ => 4) current readded_ops in
+  hist_ok (fun c => c) (fun _ => 4) current readded_ops = true /\
+  g_status (check (fun c => c) current s 7%N) = Run /\
+  (exists g, s_last_ok s 7%N = Some g /\ file_dep (g_def g) = [0%N]) /\
+  r_saved (getrec (s_db s) 7%N) 1%N <> None /\ r_deps (getrec (s_db s) 7%N) = Some [0%N] /\
+  g_changed (check (fun c => c) current s 7%N) = [1%N].
+Proof.
+  vm_compute. split; [reflexivity|]. split; [reflexivity|]. split; [eexists; split; reflexivity|].
+  split; [discriminate|]. split; reflexivity.
+Qed.
 
 Definition dA : tdef := {| file_dep := [0; 1]%N; targets := [2%N]; uptodate := [UBool true]; act_values := []; act_result := None |}.
 Example C10_changed_nonvacuous :
